@@ -185,6 +185,8 @@ class ZS:
             return v.term
         if isinstance(v, VObj):
             return v.term
+        if isinstance(v, VBox) and v.kind in ('list', 'deque') and v.term.sort() == zsort:
+            return v.term
         if zsort == z3.IntSort():
             if isinstance(v, (bool, int)):
                 return z3.IntVal(int(v))
@@ -239,6 +241,17 @@ class ZS:
             z3.RecAddDefinition(f, [a, b, i], z3.If(z3.Or(i >= z3.Length(a), i >= z3.Length(b), i < 0),
                                                     z3.Length(a) == z3.Length(b),
                                                     z3.And(a[i] == b[i], f(a, b, i + 1))))
+            self.seq_eq[k] = f
+        return self.seq_eq[k]
+
+    def seq_rev_fn(self, zsort):
+        """rev_upto(s, n) = reverse of s[:n] (index recursion)"""
+        k = 'rev' + str(zsort)
+        if k not in self.seq_eq:
+            nm = 'seq_rev_' + ''.join(ch if ch.isalnum() else '_' for ch in str(zsort))
+            f = z3.RecFunction(nm, zsort, z3.IntSort(), zsort)
+            a, n = z3.Const('a', zsort), z3.Int('n')
+            z3.RecAddDefinition(f, [a, n], z3.If(n <= 0, z3.Empty(zsort), z3.Concat(z3.Unit(a[n - 1]), f(a, n - 1))))
             self.seq_eq[k] = f
         return self.seq_eq[k]
 
